@@ -207,8 +207,8 @@ P0 = 'old(%s.g_pos)' % TP                     # its cursor at entry
 EB, MB = 'kwarg("exact_bits")', 'kwarg("max_bits")'
 BITS = '(%s if %s is not None else %s)' % (EB, EB, MB)
 EXACT = '(%s is not None)' % EB
-NB = '((%s + 7) // 8)' % BITS                 # bytes needed
-SB = '(%s - 8 * (%s - 1))' % (BITS, NB)       # significant bits of the first byte, 1..8
+NB = '((%s - 1) // 8 + 1)' % BITS             # bytes needed: ceil(bits / 8)
+SB = '(8 - (%s * 8 - %s))' % (NB, BITS)       # significant bits of the first byte, 1..8
 SYS_UNTOUCHED = '(%s is not None) ==> systape().g_pos == old(systape().g_pos)' % RF
 
 
@@ -231,11 +231,12 @@ def random_contracts(reg, cls=IN):
             'reads': '%s.g_pos == %s + %s' % (TP, P0, NB),
             'system_untouched': SYS_UNTOUCHED,
             # the value: first byte masked to the significant bits (top bit forced for exact_bits), the rest as read, big-endian
-            'value': 'ival(result) == spec.integer.random_value(nth(tape(%s, %s, 1), 0), %s, %s, %s)' % (TP, P0, rest, BITS, EXACT),
+            'value': 'ival(result) == spec.integer.random_value(nth(tape(%s, %s, 1), 0), %s, %s, %s)' % (TP, P0, rest, SB, EXACT),
             'range': '0 <= ival(result) and ival(result) < pow2(%s)' % BITS,
             'exact': '%s ==> pow2(%s - 1) <= ival(result)' % (EXACT, BITS),
             'type': 'type(result) is cls'},
-        lemmas={'exit': {'ceil': '%s == (%s - 1) // 8 + 1 and 1 <= %s and %s <= 8' % (NB, BITS, SB, SB),
+        lemmas={'exit': {'sbits': '1 <= %s and %s <= 8' % (SB, SB),
+                         'top': 'ival(result) == be(bytes([%s]) + %s)' % (top, rest),
                          'cat': 'be_cat(bytes([%s]), %s)' % (top, rest),
                          'bits': 'pow2_add(%s, 8 * (%s - 1))' % (SB, NB),
                          'lt': 'be_lt(%s)' % rest}},
